@@ -721,3 +721,25 @@ Proof.
   unfold dead_after in H. rewrite firstn_all in H. apply H; try assumption.
   rewrite holder_trace_cons. simpl. lia.
 Qed.
+
+(* ------------------------------------------------------------------------------------------------ *)
+(* what ends the heartbeat loop *)
+Lemma loop_end_only_own calls t : loop_end calls = Some t ->
+  exists c, In c calls /\ api_at c = t /\
+            (api_k c = KCancelOwn \/ (api_k c = KUnlock /\ api_same c = true)).
+Proof.
+  induction calls as [|c r IH]; simpl; [discriminate|].
+  destruct (ends_loop c) eqn:E.
+  - intros H. inversion H; subst. exists c. split; [left; reflexivity|]. split; [reflexivity|].
+    unfold ends_loop in E. destruct (api_k c); try discriminate; auto.
+  - intros H. destruct (IH H) as [d [Hd Hr]]. exists d. split; [right; assumption|assumption].
+Qed.
+
+Lemma loop_not_ended_by_others calls :
+  Forall (fun c => api_k c <> KCancelOwn /\ (api_k c = KUnlock -> api_same c = false)) calls ->
+  loop_end calls = None.
+Proof.
+  induction 1 as [|c r [H1 H2] _ IH]; [reflexivity|]. simpl.
+  replace (ends_loop c) with false; [exact IH|].
+  unfold ends_loop. destruct (api_k c) eqn:E; try reflexivity; [congruence|]. rewrite H2; reflexivity.
+Qed.
